@@ -26,6 +26,10 @@ def gen_ops(tier, rng):
         ops.append(f'l2c {geo_gens.fb(lon)} {geo_gens.fb(lat)} {rng.randint(0, 29)}')
         if rng.random() < 0.05:
             ops.append(f'l2c {geo_gens.fb(lon)} {geo_gens.fb(lat)} {rng.choice([-1, 0, 1, 2, 29])}')
+    # points just inside cell corners and edges, asked at the resolution of that cell (the containing cell is then often proposed only by one
+    # of the outer samples of the neighbour search)
+    for (q, c) in geo_gens.inside_corner_points(drv, rng, 500 if tier == 'quick' else 8000):
+        ops.append(f'l2c {geo_gens.fb(q[0])} {geo_gens.fb(q[1])} {ref_res(c)}')
     return ops
 
 def segs_for(r):
@@ -87,7 +91,7 @@ def oracle(tier, rng, seeds):
     pts = geo_gens.points(drv, tier, rng, 400 if tier == 'quick' else 20000)
     work = [(p, rng.randint(0, 29)) for p in pts]
     work += [(p, rng.choice([0, 1, 2, 3])) for p in pts[::11]]
-    for p, c in geo_gens.inside_corner_points(drv, rng, 150 if tier == 'quick' else 4000):
+    for p, c in geo_gens.inside_corner_points(drv, rng, 400 if tier == 'quick' else 8000):
         work.append((p, ref_res(c)))
     for op in seeds:
         t = op.split()
